@@ -12,7 +12,7 @@ def entryOf (s : String) : Entry := if s == "forced" then .forced else .plain
 
 def outStr : Outcome → String
   | .kept n => s!"kept:{n}" | .fresh => "fresh" | .discarded => "discarded"
-  | .errVersion => "errVersion" | .errFormat => "errFormat"
+  | .errVersion => "errVersion" | .errFormat => "errFormat" | .errCorrupt => "err:CorruptedRegion"
 
 def handle (u : Unit) (line : String) : Unit × String :=
   match words line with
@@ -27,6 +27,13 @@ def handle (u : Unit) (line : String) : Unit × String :=
       | .kept 0 | .discarded | .fresh => "empty"
       | o => outStr o
     (u, s!"{outStr r1.1} | then {o2}")
+  | ["impc", f, ec, er, ver, n] =>
+    let n := n.toNat?.getD 0
+    let v := ver.toNat?.getD 0
+    let c := importVec none (entryOf ec) v (fmtOf f)
+    let stored := c.2.map (fun s => { s with len := n, corrupt := true })
+    let r1 := importVec stored (entryOf er) v (fmtOf f)
+    (u, s!"{outStr r1.1} | region {if r1.2 == stored then "intact" else "changed"}")
   | _ => (u, line.trimAscii.toString)
 
 end AnyDB.ImportProto
